@@ -622,7 +622,75 @@ def c08_6(ctx: Ctx) -> RuleResult:
                 used.add(call.args[0].value)
     for k in kinds:
         res.add(val, val.node, f"constraint kind `{k}` is validated", k in used, "" if k in used else f"`{k}` is never checked", construct=f"validated kind {k}")
-    res.floor = 8
+    # what counts as "having" each kind of constraint
+    import itertools
+
+    from .c13 import eval_finiteness
+
+    for g in ctx.repo.funcs_in("ropt.plugins.optimizer.utils"):
+        for call in calls_in(g):
+            if chk not in ctx.cg.callees_of_call(g, call) or not call.args or not isinstance(call.args[0], ast.Constant):
+                continue
+            kind = call.args[0].value
+            hv = None
+            for kw in call.keywords:
+                if kw.arg == "have_constraint":
+                    hv = ctx.X.at(g, kw.value)
+            if hv is None:
+                res.add(g, call, f"`{kind}`: have_constraint is passed", False, "missing have_constraint", construct=f"have {kind}")
+                continue
+            if kind == "bounds":
+                bad = []
+                for lo_, up_ in itertools.product(("all", "mixed", "none"), repeat=2):
+                    v = eval_finiteness(hv, {"lower": lo_, "upper": up_})
+                    want = not (lo_ == "none" and up_ == "none")
+                    if v is None or v != want:
+                        bad.append((lo_, up_, v))
+                ok = not bad
+                res.add(g, call, "bounds are present iff any lower or any upper variable bound is finite (9 finiteness kinds)", ok,
+                        "" if ok else f"for (lower, upper, evaluates-to) = {bad[:3]} the presence of bound constraints is misjudged: a method without bound support is accepted and SciPy ignores the bounds",
+                        construct=f"have {kind}")
+            else:
+                fam = "linear_constraints" if kind.startswith("linear") else "nonlinear_constraints"
+                from ..pattern import norm as _norm
+
+                n = _norm(hv)
+                neg = False
+                core = n
+                if core[0] == "call" and core[1] == ("builtin", "bool") and core[2]:
+                    core = core[2][0]
+                if core[0] == "unary" and core[1] == "not":
+                    neg, core = True, core[2]
+                    if core[0] == "call" and core[1] == ("builtin", "bool") and core[2]:
+                        core = core[2][0]
+                elif n[0] == "unary" and n[1] == "not":
+                    neg, core = True, n[2]
+                    if core[0] == "call" and core[1] == ("builtin", "bool") and core[2]:
+                        core = core[2][0]
+                is_eq = core[0] == "call" and core[1] == ("global", "numpy.allclose") and len(core[2]) >= 2
+                roles = is_eq and ends_with_attrs(core[2][0], fam, "lower_bounds") and ends_with_attrs(core[2][1], fam, "upper_bounds") or (
+                    is_eq and ends_with_attrs(core[2][1], fam, "lower_bounds") and ends_with_attrs(core[2][0], fam, "upper_bounds"))
+                want_neg = kind.endswith("ineq")
+                ok = bool(is_eq and roles and neg == want_neg)
+                res.add(g, call, f"`{kind}` is present iff the {fam} bounds are {'not ' if want_neg else ''}all equal (allclose(lower, upper))", ok,
+                        "" if ok else f"have_constraint is `{show(hv, 90)}`", construct=f"have {kind}")
+    # sibling: the plug-in passes Bounds to SciPy under the same condition
+    ib = None
+    for m in A.cls.methods.values():
+        if any(ctx.X.at(m, c.func) == ("global", "scipy.optimize.Bounds") for c in calls_in(m)):
+            ib = m
+    if ib is not None:
+        for n_ in nodes_in(ib, ast.If):
+            if any(isinstance(x, ast.Call) and ctx.X.at(ib, x.func) == ("global", "scipy.optimize.Bounds") for s_ in n_.body for x in ast.walk(s_)):
+                t = ctx.X.at(ib, n_.test)
+                bad = []
+                for lo_, up_ in itertools.product(("all", "mixed", "none"), repeat=2):
+                    v = eval_finiteness(t, {"lower": lo_, "upper": up_})
+                    if v is None or v != (not (lo_ == "none" and up_ == "none")):
+                        bad.append((lo_, up_, v))
+                res.add(ib, n_, "a Bounds object is handed to SciPy iff any variable bound is finite (same condition as the validation)", not bad,
+                        "" if not bad else f"Bounds are dropped / created for {bad[:3]}", construct=f"{ib.name}: Bounds condition")
+    res.floor = 13
     return res
 
 
